@@ -213,6 +213,12 @@ Program gen_program(uint64_t seed, const GenParams &gp, const std::string &profi
         emit(c);
         MFile &f = gm.files[fi];
         auto define_phase = [&](bool first, bool finish = true) {
+            if (first && gp.meta_heavy) for (int pf = 0; pf < fi; pf++) {   // another file is still open in data mode: copy an attribute into it from this file, which is in define mode (header of the destination must be rewritten at once)
+                MFile &pg = gm.files[pf]; if (!pg.open || pg.mode != FM_COLL || pg.readonly || pg.gatts.empty() || !rng.chance(0.6)) continue;
+                const MAtt old = pg.gatts[rng.below(pg.gatts.size())]; if (old.name == "_FillValue" || !type_ok_for_format(old.type, f.format)) continue;
+                Op pa; pa.kind = OP_PUT_ATT; pa.file = fi; pa.var = -1; pa.name = old.name; pa.att.type = old.type; long long n = old.v.empty() ? 0 : (long long)rng.range(0, (long long)old.v.size()); for (long long k2 = 0; k2 < n; k2++) pa.att.v.push_back((long long)rng.range(1, 100)); emit(pa);
+                Op ca; ca.kind = OP_COPY_ATT; ca.file = fi; ca.var = -1; ca.a[0] = pf; ca.a[1] = -1; ca.a[2] = (long long)(f.gatts.empty() ? 0 : f.gatts.size() - 1); if (emit(ca)) checkpoint();
+            }
             if (gp.fill && rng.chance(0.5)) { Op o; o.kind = OP_SET_FILL; o.file = fi; o.a[0] = rng.chance(0.7); emit(o); }
             int nd = first ? (int)rng.range(1, 4) : (int)rng.range(0, 2);
             for (int i = 0; i < nd; i++) { Op o; o.kind = OP_DEF_DIM; o.file = fi; o.name = gen_name(rng, "d", ndim_ctr++, gp.utf8_names); o.a[0] = (gp.recs && f.unlimdim() < 0 && rng.chance(0.4)) ? 0 : rng.range(1, gp.big && rng.chance(0.2) ? 40 : gp.max_dimlen); emit(o); }
@@ -236,7 +242,8 @@ Program gen_program(uint64_t seed, const GenParams &gp, const std::string &profi
             if (gp.meta_heavy) {
                 int k = (int)rng.range(0, 4);
                 for (int i = 0; i < k; i++) {
-                    Op o; o.file = fi; int w = (int)rng.below(5);
+                    Op o; o.file = fi; int w = (int)rng.below(6);
+                    if (w == 5) { o.kind = OP_COPY_ATT; o.a[0] = fi; o.var = rng.chance(0.5) ? -1 : (int)rng.below(8); o.a[1] = rng.chance(0.5) ? -1 : (long long)rng.below(8); o.a[2] = (long long)rng.below(8); emit(o); continue; }
                     auto decomposed = [&](const std::string &nmx) { std::string t = nmx; static const struct { const char *c, *d; } tb[] = {{"\xc3\xa9", "e\xcc\x81"}, {"\xc3\xbc", "u\xcc\x88"}, {"\xc3\xa0", "a\xcc\x80"}}; for (auto &x : tb) { size_t pos = t.find(x.c); if (pos != std::string::npos) t.replace(pos, strlen(x.c), x.d); } return t; };
                     if (w == 0) { o.kind = OP_RENAME_DIM; o.dim = (int)rng.below(8); o.name2 = gen_name(rng, "rd", ndim_ctr++, gp.utf8_names); if (gp.utf8_names && f.dims.size() >= 2 && rng.chance(0.2)) o.name2 = decomposed(f.dims[rng.below(f.dims.size())].name); }
                     else if (w == 1) { o.kind = OP_RENAME_VAR; o.var = (int)rng.below(8); o.name2 = gen_name(rng, "rv", nvar_ctr++, gp.utf8_names); if (gp.utf8_names && f.vars.size() >= 2 && rng.chance(0.2)) o.name2 = decomposed(f.vars[rng.below(f.vars.size())].name); }
